@@ -518,9 +518,9 @@ fn final_checks(input: &[Ev], out: &[Ev], order: &[usize], shape_idx: usize, sta
 
 pub fn tier_shapes(thorough: bool) -> Vec<Shape> {
     if thorough {
-        shapes(13, 2, 3)
+        shapes(14, 2, 3)
     } else {
-        shapes(10, 2, 2)
+        shapes(12, 2, 2)
     }
 }
 
